@@ -85,7 +85,7 @@ func (w *lfWorld) classify(c *simapi.Call) string {
 	return "pre:" + c.Key.Kind
 }
 
-func newLF(tw *trace.Writer, id, lockState string) *lfWorld {
+func newLF(tw *trace.Writer, id, lockState, desired string) *lfWorld {
 	sch := runtime.NewScheme()
 	_ = pkgv1.AddToScheme(sch)
 	_ = pkgv1beta1.AddToScheme(sch)
@@ -95,6 +95,9 @@ func newLF(tw *trace.Writer, id, lockState string) *lfWorld {
 	pr := &pkgv1.ProviderRevision{ObjectMeta: metav1.ObjectMeta{Name: lfRev, Finalizers: []string{finRev}, Labels: map[string]string{pkgv1.LabelParentPackage: "prov"}}}
 	pr.Spec.Package = "xpkg.example.org/org/prov:v1"
 	pr.Spec.DesiredState = pkgv1.PackageRevisionActive
+	if desired == "Inactive" {
+		pr.Spec.DesiredState = pkgv1.PackageRevisionInactive
+	}
 	s.Put(pr)
 	s.MarkDeleted(simapi.Key{Group: "pkg.crossplane.io", Kind: "ProviderRevision", Name: lfRev})
 	if lockState != "nolock" {
@@ -185,7 +188,7 @@ func lockfinMain(scenarios, tracePath, sumPath string) {
 		}
 		one := func(id string, sweepRec, sweepIdx int, d simapi.Decision) []int {
 			tw.Boundary()
-			w := newLF(tw, id, hist[0].K)
+			w := newLF(tw, id, hist[0].K, hist[0].O)
 			w.emit("reset", nil)
 			blocks, _ := replay.Split(hist[1:], func(e replay.Entry) bool { return e.K == "get:rev" })
 			calls := []int{}
